@@ -39,7 +39,9 @@ ElemKey(o, nm) == FoldName(o, nm.l)                     \* local name only: the 
 AttrKey(o, nm) == Cs1(o.apfx) \o FoldName(o, nm.l)      \* (prefixes contain no upper-case letters)
 
 \* cast with the default flags (float, bool) over the texts the configs use; C14 has the full chain
-CastDefault(s) == CASE s = <<"7">> -> VF(s) [] s = <<"1">> -> VF(s) [] s = <<"t", "r", "u", "e">> -> VB(s) [] OTHER -> VS(s)
+BigNum == <<"1", "6", "7", "7", "7", "2", "1", "7">>     \* 2^24 + 1: exact as float64, not as float32
+BigNumTok == <<"1", ".", "6", "7", "7", "7", "2", "1", "7", "e", "+", "0", "7">>     \* its canonical token (Go's %v of the float64)
+CastDefault(s) == CASE s = <<"7">> -> VF(s) [] s = <<"1">> -> VF(s) [] s = BigNum -> VF(BigNumTok) [] s = BigNumTok -> VF(BigNumTok) [] s = <<"t", "r", "u", "e">> -> VB(s) [] OTHER -> VS(s)
 ScalarOf(o, cs) == LET s == IF o.escdec THEN XmlEscape(cs) ELSE cs IN
                    IF o.cast THEN CastDefault(s) ELSE VS(s)
 
